@@ -57,6 +57,7 @@ fn main() {
     println!("== {} tier={:?} seed={} threads={} ==", prop, env.tier, env.seed, env.threads);
     let code = match prop.as_str() {
         "C08" => c08l::run(&env),
+        "C12" => c14::run_c12(&env),
         "C13" => c13l::run(&env),
         "C14" => c14::run(&env),
         "C19" => c19::run(&env),
